@@ -741,7 +741,15 @@ func (r *multiCIDRRangeAllocator) ReleaseCIDR(logger klog.Logger, node *corev1.N
 	r.lock.Lock()
 	defer r.lock.Unlock()
 
-	if node == nil || len(node.Spec.PodCIDRs) == 0 {
+	if node == nil {
+		return nil
+	}
+	if len(node.Spec.PodCIDRs) == 0 {
+		// Nothing to release. An association can still exist, left by a write whose outcome was
+		// unknown and that turned out not to have been applied: drop it.
+		for _, clusterCIDR := range r.associatedClusterCIDRs(node) {
+			delete(clusterCIDR.AssociatedNodes, node.Name)
+		}
 		return nil
 	}
 
@@ -883,6 +891,9 @@ func (r *multiCIDRRangeAllocator) updateCIDRsAllocation(logger klog.Logger, data
 					return fmt.Errorf("failed to release cidr %q from clusterCIDR %q for node: %q: %w", cidr, data.clusterCIDR.Name, node.Name, err)
 				}
 			}
+		} else {
+			// The node may be using the CIDRs: the ClusterCIDR must not be deleted under it.
+			data.clusterCIDR.AssociatedNodes[node.Name] = true
 		}
 		return err
 	}(data)
